@@ -72,7 +72,7 @@ Section Iter.
   Definition resize (c : cache) (len : nat) : cache :=
     firstn len c ++ repeat None (len - length c).
 
-  Fixpoint set_nth (i : nat) (v : option T) (c : cache) : cache :=
+  Fixpoint set_nth (i : nat) (v : option T) (c : cache) {struct c} : cache :=
     match c, i with
     | [], _ => []
     | _ :: r, O => v :: r
